@@ -795,6 +795,29 @@ def radius_append_rule(rep, u):
     return 1
 
 
+# RFC 6891 6.1.2 / 6.1.3: fixed part of the OPT pseudo-RR as it appears on the wire (offset, size)
+OPT_RR_RFC = [("name", 0, 1), ("type", 1, 2), ("udp_payload_size", 3, 2), ("ex_rcode", 5, 1), ("version", 6, 1), ("ex_flags", 7, 2), ("rdlength", 9, 2)]
+
+
+def opt_rr_layout_rule(rep, u, rec="dns_opt_rr_s"):
+    """the record dns_msg_optrr_add fills is the wire image: its members sit at the RFC 6891 offsets (the TTL field of an
+    OPT RR is EXTENDED-RCODE, VERSION, flags - in that order)"""
+    r = u.records.get(rec)
+    if r is None:
+        raise driver.AnalysisBroken("record %s vanished" % rec)
+    have = {f["n"]: (f["off"] // 8) for f in r["fields"]}
+    n = 0
+    for name, off, size in OPT_RR_RFC:
+        n += 1
+        desc = "%s.%s is at wire offset %d (RFC 6891)" % (rec, name, off)
+        if have.get(name) == off:
+            rep.proved("R-LAYOUT", "", "opt-rr:%s" % name, desc, "", file=DNS_H, unit="proto/dns.h")
+        else:
+            rep.violated("R-LAYOUT", "", "opt-rr:%s" % name, desc, "declared at offset %s: the octets of the OPT TTL field are exchanged on the wire" % have.get(name),
+                         file=DNS_H, unit="proto/dns.h")
+    return n
+
+
 def dns_reported_size_rule(rep, u):
     """dns_msg_question_add / dns_msg_rr_add report the new message size through their last parameter; the next record is
     appended there.  The name written may be shorter than the 2 + name_len the pre-check assumes (the root name is one
@@ -994,6 +1017,7 @@ def run(rep, tier):
     rep.floor("DNS flag bit-fields (both byte orders)", r_bitlayout.check(rep, us, "proto/dns.h"), 13)
     radius_append_rule(rep, ur)
     rep.floor("DNS append size cases", dns_reported_size_rule(rep, ud), 12)
+    rep.floor("OPT RR members", opt_rr_layout_rule(rep, ud), 7)
     counter_rule(rep, ud)
     rep.floor("DNS header accessors", accessor_siblings(rep, ud), 16)
     ct_compare_rule(rep, ur)
